@@ -157,8 +157,8 @@ Ltac raw_cases Hr :=
   destruct Hr as (pre & v1 & v2 & -> & -> & Hrr);
   do 7 (try (destruct pre as [|? pre])); cbn [app]; cbv beta iota; try (constructor; fail).
 
-Definition fn_resT (r1 r2 : bool) (h : heap) (pl : option (list bytes)) (x y : val * heap) : Prop :=
-  snd x = h /\ snd y = h /\ valT r1 r2 pl (fst x) (fst y).
+Definition fn_resT (r1 r2 : bool) (h1 h2 : heap) (pl : option (list bytes)) (x y : val * heap) : Prop :=
+  snd x = h1 /\ snd y = h2 /\ valT r1 r2 pl (fst x) (fst y).
 
 (** the [raw:] conversions of the two calls *)
 Ltac raw_conv Hrr :=
@@ -177,10 +177,10 @@ Definition broadcast_eth (slots : list val) : option (list bytes) :=
 
 Ltac fn_enter := exec_unfold; cbn [oorel].
 
-Theorem unicast_twin e slots1 slots2 extra h r1 r2 :
+Theorem unicast_twin e slots1 slots2 extra h1 h2 r1 r2 :
   raw_slots r1 r2 slots1 slots2 ->
-  oorel (fn_resT r1 r2 h (unicast_eth slots1))
-    (exec e "ipv4::udp::unicast" None slots1 extra h) (exec e "ipv4::udp::unicast" None slots2 extra h).
+  oorel (fn_resT r1 r2 h1 h2 (unicast_eth slots1))
+    (exec e "ipv4::udp::unicast" None slots1 extra h1) (exec e "ipv4::udp::unicast" None slots2 extra h2).
 Proof.
   intros Hr. fn_enter. unfold udp_unicast_fn. raw_cases Hr.
   raw_conv Hrr. do 3 osame.
@@ -190,10 +190,10 @@ Proof.
   apply valT_pkt. apply (udp_packet_twin _ _ _ _ _ Hd).
 Qed.
 
-Theorem broadcast_twin e slots1 slots2 extra h r1 r2 :
+Theorem broadcast_twin e slots1 slots2 extra h1 h2 r1 r2 :
   raw_slots r1 r2 slots1 slots2 ->
-  oorel (fn_resT r1 r2 h (broadcast_eth slots1))
-    (exec e "ipv4::udp::broadcast" None slots1 extra h) (exec e "ipv4::udp::broadcast" None slots2 extra h).
+  oorel (fn_resT r1 r2 h1 h2 (broadcast_eth slots1))
+    (exec e "ipv4::udp::broadcast" None slots1 extra h1) (exec e "ipv4::udp::broadcast" None slots2 extra h2).
 Proof.
   intros Hr. fn_enter. unfold udp_broadcast_fn. raw_cases Hr.
   osame. raw_conv Hrr. do 3 osame.
@@ -260,37 +260,37 @@ Proof. destruct q; cbn [req_run]; unfold frag_tail, frag_fragment, frag_datagram
 Definition frag_eth_plan (f : ip_frag) (name : string) (slots : list val) : option (list bytes) :=
   plan_total (option_map (fun q => [eth_of_want (req_want f (fst q))]) (frag_call_req name slots)).
 
-Lemma frag_run_twin r1 r2 (h : heap) pl (k1 k2 : outcome packet) :
+Lemma frag_run_twin r1 r2 (h1 h2 : heap) pl (k1 k2 : outcome packet) :
   orel (fun p1 p2 => exists eth, pl = Some [eth] /\ pktT r1 r2 eth p1 p2) k1 k2 ->
-  orel (fn_resT r1 r2 h pl) (do p <- k1; Ok (VPkt p, h)) (do p <- k2; Ok (VPkt p, h)).
+  orel (fn_resT r1 r2 h1 h2 pl) (do p <- k1; Ok (VPkt p, h1)) (do p <- k2; Ok (VPkt p, h2)).
 Proof.
   intros H. eapply orel_bind; [exact H|]. intros p1 p2 (eth & -> & Hp). constructor. split; [reflexivity|]. split; [reflexivity|].
   apply valT_pkt, Hp.
 Qed.
 
-Theorem frag_method_twin e ms name key slots1 slots2 extra h a f r1 r2 :
+Theorem frag_method_twin e ms name key slots1 slots2 extra h1 h2 a f r1 r2 :
   assoc frag_class class_table = Some ms -> In (name, key) ms ->
-  nth_error h a = Some (OFrag f) -> raw_slots r1 r2 slots1 slots2 ->
-  oorel (fn_resT r1 r2 h (frag_eth_plan f name slots1))
-    (exec e key (Some a) slots1 extra h) (exec e key (Some a) slots2 extra h).
+  nth_error h1 a = Some (OFrag f) -> nth_error h2 a = Some (OFrag f) -> raw_slots r1 r2 slots1 slots2 ->
+  oorel (fn_resT r1 r2 h1 h2 (frag_eth_plan f name slots1))
+    (exec e key (Some a) slots1 extra h1) (exec e key (Some a) slots2 extra h2).
 Proof.
-  intros Hms Hin Hn Hr. vm_compute in Hms. apply Some_inj in Hms. subst ms.
+  intros Hms Hin Hn Hn' Hr. vm_compute in Hms. apply Some_inj in Hms. subst ms.
   cbn [In] in Hin.
   repeat (destruct Hin as [Hin|Hin]; [apply pair_equal_spec in Hin; destruct Hin as [<- <-]|]); [..|contradiction Hin].
-  - exec_unfold; cbn [oorel]. rewrite (take_this_some _ _ _ Hn). cbn [obind]. cbv beta iota.
+  - exec_unfold; cbn [oorel]. rewrite (take_this_some _ _ _ Hn), (take_this_some _ _ _ Hn'). cbn [obind]. cbv beta iota.
     raw_cases Hr; try (cbn [obind]; constructor; fail).
     destruct (conv_u16 v) as [o| | |] eqn:Eo; cbn [obind]; try (constructor; fail).
     destruct (conv_u16 v0) as [l| | |] eqn:El; cbn [obind]; try (constructor; fail).
     eapply frag_run_twin. eapply orel_bind_eqn; [exact Hrr|]. intros x y Hr1 Hr2 [-> ->].
     eapply orel_mono; [|apply (req_run_twin r1 r2 f (RFrag o l))]. intros p1 p2 Hp. eexists. split; [|exact Hp].
     unfold frag_eth_plan, frag_call_req. cbn [String.eqb Ascii.eqb Bool.eqb]. rewrite Eo, El, Hr1. reflexivity.
-  - exec_unfold; cbn [oorel]. rewrite (take_this_some _ _ _ Hn). cbn [obind]. cbv beta iota.
+  - exec_unfold; cbn [oorel]. rewrite (take_this_some _ _ _ Hn), (take_this_some _ _ _ Hn'). cbn [obind]. cbv beta iota.
     raw_cases Hr; try (cbn [obind]; constructor; fail).
     destruct (conv_u16 v) as [o| | |] eqn:Eo; cbn [obind]; try (constructor; fail).
     eapply frag_run_twin. eapply orel_bind_eqn; [exact Hrr|]. intros x y Hr1 Hr2 [-> ->].
     eapply orel_mono; [|apply (req_run_twin r1 r2 f (RTail o))]. intros p1 p2 Hp. eexists. split; [|exact Hp].
     unfold frag_eth_plan, frag_call_req. cbn [String.eqb Ascii.eqb Bool.eqb]. rewrite Eo, Hr1. reflexivity.
-  - exec_unfold; cbn [oorel]. rewrite (take_this_some _ _ _ Hn). cbn [obind]. cbv beta iota.
+  - exec_unfold; cbn [oorel]. rewrite (take_this_some _ _ _ Hn), (take_this_some _ _ _ Hn'). cbn [obind]. cbv beta iota.
     raw_cases Hr; try (cbn [obind]; constructor; fail).
     eapply frag_run_twin. eapply orel_bind_eqn; [exact Hrr|]. intros x y Hr1 Hr2 [-> ->].
     eapply orel_mono; [|apply (req_run_twin r1 r2 f RDgram)]. intros p1 p2 Hp. eexists. split; [|exact Hp].
@@ -302,7 +302,7 @@ Definition datagram_eth (slots : list val) : option (list bytes) :=
   plan_total (match datagram_want slots with Ok w => Some [eth_of_want w] | _ => None end).
 
 Theorem datagram_framed e slots extra h :
-  oorel (fn_resT false false h (datagram_eth slots))
+  oorel (fn_resT false false h h (datagram_eth slots))
     (exec e "ipv4::datagram" None slots extra h) (exec e "ipv4::datagram" None slots extra h).
 Proof.
   fn_enter. unfold ipv4_datagram_fn. slots_cases. do 10 osame. constructor.
@@ -315,10 +315,10 @@ Qed.
 Definition dns_host_eth (slots : list val) : option (list bytes) :=
   plan_total (match dns_host_plan slots with Ok (_, ws) => Some (map eth_of_want ws) | _ => None end).
 
-Theorem dns_host_twin e slots1 slots2 extra h r1 r2 :
+Theorem dns_host_twin e slots1 slots2 extra h1 h2 r1 r2 :
   raw_slots r1 r2 slots1 slots2 ->
-  oorel (fn_resT r1 r2 h (dns_host_eth slots1))
-    (exec e "dns::host" None slots1 extra h) (exec e "dns::host" None slots2 extra h).
+  oorel (fn_resT r1 r2 h1 h2 (dns_host_eth slots1))
+    (exec e "dns::host" None slots1 extra h1) (exec e "dns::host" None slots2 extra h2).
 Proof.
   intros Hr. fn_enter. unfold dns_host_fn. raw_cases Hr.
   do 4 osame. raw_conv Hrr. cbv zeta.
